@@ -36,6 +36,7 @@ def build_one(name_prefix, i, bases, cls, root):
 
 
 class TypeQueriesAdapter:
+    multi = True      # track every model state that explains the observations so far (replay.walk)
     def __init__(self, desper, n):
         self.desper = desper
         self.n = n
